@@ -5,6 +5,9 @@ import traceback
 from . import core
 from .core import EngineEscape, PathCap
 
+import os
+_HERE = os.path.dirname(os.path.dirname(os.path.abspath(__file__))) + os.sep
+
 REGISTRY = {}      # property id -> [Harness]
 
 
@@ -55,7 +58,10 @@ def _run_one(h, twin, timeout_s):
     except Exception as e:
         tb = traceback.extract_tb(e.__traceback__)
         in_repo = [t for t in tb if t.filename.startswith(core.REPO)]
-        if in_repo:
+        ours = [t for t in tb if t.filename.startswith(core.REPO) or t.filename.startswith(_HERE)]
+        # the innermost frame that is either /repo's or the checker's decides whose error it is: an exception raised by
+        # the checker's own stand-ins while /repo code calls them is a checker crash (exit 3), never a violation
+        if in_repo and ours and ours[-1].filename.startswith(core.REPO):
             # code of /repo raised where the contract's harness calls it directly: that is a failed obligation, not a checker crash
             ob = core.Obligation()
             ob.kind, ob.sig, ob.model, ob.replay, ob.note = 'post', '-', None, None, None
